@@ -636,3 +636,184 @@ Section Export.
     apply (G l (incl_refl l) outs H).
   Qed.
 End Export.
+
+(* ------------------------------------------------------------------------------------------ *)
+(* acceptance: inputs the specification says must be accepted are exported                     *)
+(* ------------------------------------------------------------------------------------------ *)
+Lemma xf_accepts x : num_fin x = true -> exists f, xf x = Ok f.
+Proof. destruct x; simpl; intros H; [eauto|discriminate]. Qed.
+Lemma xf_list_accepts l : forallb num_fin l = true -> exists l', traverse xf l = Ok l'.
+Proof.
+  induction l as [|x l IH]; simpl; intros H; [eauto|]. apply andb_true_iff in H. destruct H as [H1 H2].
+  destruct (xf_accepts _ H1) as [f ->]. destruct (IH H2) as [l' ->]. simpl. eauto.
+Qed.
+Lemma xsweep_accepts s : sweep_fin s = true -> exists o, xsweep s = Ok o.
+Proof.
+  destruct s; simpl; intros H.
+  - apply andb_true_iff in H. destruct H as [H H3]. apply andb_true_iff in H. destruct H as [H1 H2].
+    destruct (xf_accepts _ H1) as [? ->]. destruct (xf_accepts _ H2) as [? ->]. destruct (xf_accepts _ H3) as [? ->]. simpl. eauto.
+  - apply andb_true_iff in H. destruct H as [H1 H2].
+    destruct (xf_accepts _ H1) as [? ->]. destruct (xf_accepts _ H2) as [? ->]. simpl. eauto.
+  - destruct (xf_list_accepts _ H) as [? ->]. simpl. eauto.
+Qed.
+
+Definition an_accepts (a : analysis) : Prop := an_fin a = true -> forall k, exists r, xan a k = Ok r.
+Lemma thread_accepts l : Forall an_accepts l -> forallb an_fin l = true -> forall k, exists r, thread xan l k = Ok r.
+Proof.
+  induction 1 as [|a l Ha _ IH]; intros HF k; [simpl; eauto|].
+  simpl in HF. apply andb_true_iff in HF. destruct HF as [H1 H2].
+  rewrite thread_cons. destruct (Ha H1 k) as [r1 ->]. simpl. destruct (IH H2 (snd r1)) as [r2 ->]. simpl. eauto.
+Qed.
+Lemma an_fin_sweep inner v sw n : an_fin (ASweep inner v sw n) = sweep_fin sw && forallb an_fin inner.
+Proof. reflexivity. Qed.
+Lemma an_fin_monte inner k n : an_fin (AMonte inner k n) = in_i64 k && forallb an_fin inner.
+Proof. reflexivity. Qed.
+
+Lemma xan_accepts a : an_accepts a.
+Proof.
+  induction a using analysis_ind'; intros HF k0.
+  - simpl. destruct (pick_name n k0). eauto.
+  - simpl in *. destruct (pick_name n k0). destruct (xsweep_accepts _ HF) as [? ->]. simpl. eauto.
+  - simpl in *. destruct (pick_name n k0). apply andb_true_iff in HF. destruct HF as [HF H3]. apply andb_true_iff in HF. destruct HF as [H1 H2].
+    destruct (xf_accepts _ H1) as [? ->]. destruct (xf_accepts _ H2) as [? ->]. rewrite H3. simpl. eauto.
+  - simpl in *. destruct (pick_name n k0). apply andb_true_iff in HF. destruct HF as [H1 H2].
+    destruct (xf_accepts _ H1) as [? ->]. simpl. destruct ts as [tsx|]; simpl; [|eauto].
+    destruct (xf_accepts _ H2) as [? ->]. simpl. eauto.
+  - simpl in *. destruct (pick_name n k0). apply andb_true_iff in HF. destruct HF as [HF H4]. apply andb_true_iff in HF. destruct HF as [HF H3].
+    apply andb_true_iff in HF. destruct HF as [H1 H2].
+    assert (HO : exists p, xnout o = Ok p).
+    { destruct o as [l|so1|so2|]; simpl; eauto; try discriminate. destruct l as [|[x1|] [|[y1|] [|z1 l]]]; try discriminate. eauto. }
+    destruct HO as [? ->]. destruct (xf_accepts _ H1) as [? ->]. destruct (xf_accepts _ H2) as [? ->]. rewrite H3. simpl. eauto.
+  - rewrite an_fin_sweep in HF. apply andb_true_iff in HF. destruct HF as [H1 H2]. rewrite xan_sweep.
+    destruct (pick_name n k0) as [nm k1]. destruct (xsweep_accepts _ H1) as [? ->]. simpl.
+    destruct (thread_accepts _ H H2 k1) as [? ->]. simpl. eauto.
+  - rewrite an_fin_monte in HF. apply andb_true_iff in HF. destruct HF as [H1 H2]. rewrite xan_monte.
+    destruct (pick_name n k0) as [nm k1]. destruct (thread_accepts _ H H2 k1) as [? ->]. simpl. rewrite H1. simpl. eauto.
+  - simpl. destruct (pick_name n k0). eauto.
+Qed.
+
+Lemma xpnum_accepts v : pnum_fin v = true -> exists p, xpnum v = Ok p.
+Proof. destruct v; intros H; [unfold xpnum; rewrite H; simpl; eauto|simpl; eauto]. Qed.
+Lemma xctrl_accepts c : ctrl_fin c = true -> exists o, xctrl c = Ok o.
+Proof.
+  destruct c; simpl; intros H; eauto.
+  - apply xsave_total. intros ->. discriminate.
+  - destruct (xpnum_accepts _ H) as [? ->]. simpl. eauto.
+Qed.
+Lemma xattrs_accepts l : forallb attr_fin l = true -> forall k, exists r, xattrs l k = Ok r.
+Proof.
+  induction l as [|a l IH]; intros HF k; [simpl; eauto|].
+  simpl in HF. apply andb_true_iff in HF. destruct HF as [H1 H2]. destruct a as [a|c|n v]; simpl.
+  - destruct (xan_accepts a H1 k) as [r1 ->]. simpl. destruct (IH H2 (snd r1)) as [[[os ans] cs] ->]. simpl. eauto.
+  - destruct (xctrl_accepts _ H1) as [? ->]. simpl. destruct (IH H2 k) as [[[os ans] cs] ->]. simpl. eauto.
+  - assert (HV : exists p, xoval v = Ok p).
+    { destruct v; simpl; [eauto|]. apply xpnum_accepts. exact H1. }
+    destruct HV as [? ->]. simpl. destruct (IH H2 k) as [[[os ans] cs] ->]. simpl. eauto.
+Qed.
+
+(* the module exporter accepts every hierarchy whose names are consistent *)
+Lemma names_consistent_spec U : names_consistent U = true ->
+  forall a b, In a U -> In b U -> snd a = snd b -> fst a = fst b.
+Proof.
+  unfold names_consistent. intros H a b Ha Hb E. rewrite forallb_forall in H. specialize (H a Ha).
+  rewrite forallb_forall in H. specialize (H b Hb). rewrite E, String.eqb_refl in H.
+  apply Bool.eqb_prop in H. apply N.eqb_eq. exact H.
+Qed.
+Lemma names_consistent_functional U : names_consistent U = true -> ids_functional U = true.
+Proof.
+  unfold names_consistent, ids_functional. intros H. apply forallb_forall. intros a Ha. apply forallb_forall. intros b Hb.
+  rewrite forallb_forall in H. specialize (H a Ha). rewrite forallb_forall in H. specialize (H b Hb).
+  apply Bool.eqb_prop in H. rewrite H. destruct (String.eqb (snd a) (snd b)); reflexivity.
+Qed.
+
+Record acc_pre (U : list (N * string)) (src : list (N * string)) (st : pst) (stack : list (N * string)) : Prop := {
+  a_src : incl src U;
+  a_done : incl (done st) U;
+  a_stack : incl stack U;
+  a_res : forall x, In x (reserved st) -> In x (pkg_names (done st)) \/ In x (pkg_names stack);
+  a_anc : forall a, In a stack -> ~ In (fst a) (map fst src) }.
+Record acc_post (U : list (N * string)) (st st' : pst) (stack : list (N * string)) : Prop := {
+  p_done : incl (done st') U;
+  p_mono : incl (done st) (done st');
+  p_res : forall x, In x (reserved st') -> In x (pkg_names (done st')) \/ In x (pkg_names stack) }.
+
+Definition mod_accepts (m : hmod) : Prop :=
+  forall U st stack, names_consistent U = true -> acyclic m = true -> acc_pre U (flat_mods m) st stack ->
+    exists st', xmod m st = Ok st' /\ acc_post U st st' stack.
+Definition mods_accept (l : list hmod) : Prop :=
+  forall U st stack, names_consistent U = true -> forallb acyclic l = true -> acc_pre U (flat_map flat_mods l) st stack ->
+    exists st', seq_fold xmod l st = Ok st' /\ acc_post U st st' stack.
+
+Lemma mods_accept_of l : Forall mod_accepts l -> mods_accept l.
+Proof.
+  induction 1 as [|m l Hm _ IH]; intros U st stack HC HA [S D K R A].
+  - exists st. split; [reflexivity|]. constructor; [exact D|apply incl_refl|exact R].
+  - simpl in HA. apply andb_true_iff in HA. destruct HA as [HA1 HA2]. simpl in S, A.
+    destruct (Hm U st stack HC HA1) as [sa [E [D1 M1 R1]]].
+    { constructor; [intros x Hx; apply S; apply in_or_app; left; exact Hx|exact D|exact K|exact R|].
+      intros a Ha Hin. apply (A a Ha). rewrite map_app. apply in_or_app. left. exact Hin. }
+    destruct (IH U sa stack HC HA2) as [st' [E' [D2 M2 R2]]].
+    { constructor; [intros x Hx; apply S; apply in_or_app; right; exact Hx|exact D1|exact K|exact R1|].
+      intros a Ha Hin. apply (A a Ha). rewrite map_app. apply in_or_app. right. exact Hin. }
+    exists st'. split; [rewrite seq_fold_cons, E; simpl; exact E'|].
+    constructor; [exact D2|eapply incl_tran; eassumption|exact R2].
+Qed.
+
+Lemma acyclic_eq i n kids :
+  acyclic (HMod i n kids) = negb (existsb (N.eqb i) (map fst (flat_map flat_mods kids))) && forallb acyclic kids.
+Proof. reflexivity. Qed.
+
+Lemma xmod_accepts m : mod_accepts m.
+Proof.
+  induction m as [id name kids IHk] using hmod_ind'. intros U st stack HC HA [S D K R A].
+  rewrite xmod_eq. destruct (existsb (fun e => N.eqb (fst e) id) (done st)) eqn:EX.
+  - exists st. split; [reflexivity|]. constructor; [exact D|apply incl_refl|exact R].
+  - rewrite acyclic_eq in HA. apply andb_true_iff in HA. destruct HA as [HA1 HA2].
+    assert (HU : In (id, name) U). { apply S. simpl. left. reflexivity. }
+    assert (EM : mem_str name (reserved st) = false).
+    { destruct (mem_str name (reserved st)) eqn:EM; [|reflexivity]. exfalso. apply mem_str_In in EM.
+      destruct (R _ EM) as [Hd|Hs]; unfold pkg_names in *; apply in_map_iff in Hd || apply in_map_iff in Hs.
+      - destruct Hd as [e [He Hin]]. pose proof (names_consistent_spec _ HC e (id, name) (D _ Hin) HU He) as Ei. simpl in Ei.
+        assert (X : existsb (fun e => N.eqb (fst e) id) (done st) = true).
+        { apply existsb_exists. exists e. split; [exact Hin|apply N.eqb_eq; exact Ei]. }
+        congruence.
+      - destruct Hs as [e [He Hin]]. pose proof (names_consistent_spec _ HC e (id, name) (K _ Hin) HU He) as Ei. simpl in Ei.
+        apply (A e Hin). rewrite Ei. simpl. left. reflexivity. }
+    rewrite EM.
+    destruct (mods_accept_of _ IHk U {| reserved := name :: reserved st; done := done st |} ((id, name) :: stack) HC HA2)
+      as [st2 [E [D2 M2 R2]]].
+    { constructor; simpl.
+      - intros x Hx. apply S. simpl. right. exact Hx.
+      - exact D.
+      - intros x [<-|Hx]; [exact HU|apply K; exact Hx].
+      - intros x [<-|Hx]; [right; left; reflexivity|]. destruct (R _ Hx) as [H1|H1]; [left; exact H1|right; right; exact H1].
+      - intros a [<-|Ha] Hin.
+        + simpl in Hin. apply negb_true_iff in HA1.
+          assert (X : existsb (N.eqb id) (map fst (flat_map flat_mods kids)) = true).
+          { apply existsb_exists. exists id. split; [exact Hin|apply N.eqb_refl]. }
+          congruence.
+        + apply (A a Ha). simpl. right. exact Hin. }
+    rewrite E. simpl. eexists. split; [reflexivity|]. simpl in *. constructor; simpl.
+    + intros x Hx. apply in_app_or in Hx. destruct Hx as [Hx|[<-|[]]]; [apply D2; exact Hx|exact HU].
+    + intros x Hx. apply in_or_app. left. apply M2. exact Hx.
+    + intros x Hx. unfold pkg_names. rewrite map_app, in_app_iff. simpl.
+      destruct (R2 _ Hx) as [H1|[<-|H1]]; [left; left; exact H1|left; right; left; reflexivity|right; exact H1].
+Qed.
+
+Lemma export_all_accepts l : must_accept_all l = true -> forallb (fun s => acyclic (tb_mod (s_tb s))) l = true ->
+  exists outs, export_all l = Ok outs.
+Proof.
+  unfold must_accept_all. intros HM HA. apply andb_true_iff in HM. destruct HM as [HM HC].
+  fold (universe l) in HC. unfold export_all.
+  destruct (mods_accept_of (map (fun s => tb_mod (s_tb s)) l)
+              (proj2 (Forall_forall _ _) (fun m _ => xmod_accepts m))
+              (universe l) {| reserved := []; done := [] |} [] HC) as [st [E _]].
+  - rewrite forallb_forall. intros m Hm. apply in_map_iff in Hm. destruct Hm as [s [<- Hs]].
+    rewrite forallb_forall in HA. apply HA. exact Hs.
+  - constructor; simpl; try (intros x []). rewrite flat_map_map. apply incl_refl.
+  - rewrite E. simpl. clear E HA HC.
+    induction l as [|s l IH]; simpl; [eauto|]. simpl in HM. apply andb_true_iff in HM. destruct HM as [H1 H2].
+    unfold must_accept in H1. apply andb_true_iff in H1. destruct H1 as [P F].
+    unfold export_one at 1. rewrite P. simpl. destruct (xattrs_accepts _ F 0%N) as [[[os ans] cs] ->]. simpl.
+    destruct (IH H2) as [outs ->]. simpl. eauto.
+Qed.
